@@ -381,6 +381,31 @@ def run_case(case, rec):
                             common.BpSeq.from_dotbracket(obj)
                         except Exception:
                             pass
+    # a produced notation written to a dot-bracket file (with and without a header line) and read back: the reader must
+    # hand back the sequence and the structure exactly as written (lower-case residue letters and the lower-case closing
+    # brackets of the letter levels included), and decoding it gives the structure's pairs (judged by the monitor)
+    if h % 5 == 0:
+        from vmon import emit
+
+        for attr in ("fcfs", "dot_bracket"):
+            if attr == "dot_bracket" and _max_component(f) > 14:
+                continue
+            try:
+                d = getattr(b, attr)
+            except Exception:
+                continue
+            for header in (">strand_A\n", ""):
+                path = emit.scratch_path(".dbn")
+                with open(path, "w") as fh:
+                    fh.write(f"{header}{d.sequence}\n{d.structure}\n")
+                try:
+                    back = common.DotBracket.from_file(path)
+                    common.BpSeq.from_dotbracket(back)
+                except Exception as e:
+                    rec.violation("file.no-crash", {"written": d.structure, "exception": repr(e)[:200]}, mechanism=f"crash:{type(e).__name__}:from_file")
+                    continue
+                rec.check("file.reads-back-what-was-written", back.sequence == d.sequence and back.structure == d.structure,
+                          lambda: {"written": [d.sequence[:80], d.structure[:80]], "read": [back.sequence[:80], back.structure[:80]], "header": bool(header)})
     # text round trip
     snap = mon2d.snapshot(b)
     text = str(b)
